@@ -20,3 +20,18 @@ REG["C36"] = dict(
     assumes=["each Put/Get holds the cache mutex for its whole body (observed by the concurrent runs, not proved); "
              "session keys and states modelled as opaque identities"],
 )
+
+REG["C30"] = dict(
+    runner="C30", corr=["Corr.C30Corr"], n=dict(quick=400, thorough=10000), race_suite="C30race",
+    rule="random 32-byte seeds; SHAKE256 stream computed independently (x/crypto/sha3) and handed to the model; calls "
+         "Intn/Int63n/Range/FlipWeightedCoin/Perm with boundary arguments (0,1,2^31-1,2^31,2^62,2^63-1,negative, +-0.0,1.0, "
+         "nextafter values, NaN, +-Inf) and random ones, starting 0..3 words into the stream; each case also pins the next "
+         "8 stream bytes. Distinct by (call,args,seed); non-trivial when n>1 / max>lo / 0<w<1 / perm n>2.",
+    trusted_base=["verif_export.go VerifPRNG wrapper", "x/crypto/sha3 SHAKE256 (stream recomputation)",
+                  "IEEE-754 float64 laws as Section hypotheses (monotone rounding; 0,1,2^63,2^-63 representable); executable rne validated against Go"],
+    assumes=["streams long enough that rejection loops end within the fuel (64 redraws)",
+             "float64 subtraction/division/conversion behave as round-to-nearest-even"],
+    level_text="Proof for every stream (hence every seed) of the range statements for Intn/Int63n/Range incl. 64-bit wrap-around; "
+               "FlipWeightedCoin proved for any rounding function obeying the IEEE-754 laws stated as premises (partial: the float "
+               "unit itself is modelled); determinism/salt-sensitivity/concurrency observed by the runner (race detector).",
+)
